@@ -407,6 +407,21 @@ fn scanner(rec: &mut Rec, ctx: &Ctx, idx: u64, rng: &mut ChaCha20Rng) {
         rec.ev("adss_share_scanned");
         scan(rec, b, &nd, "adss-share", json!({"case": idx, "t": t}));
       }
+      // the encrypted message and the encrypted coins must not share a keystream:
+      // C ^ D == M ^ R over >= 16 bytes would let one field unmask the other
+      let l = mm.len().min(rr.len());
+      if l >= 16 {
+        rec.ev("adss_field_relation_checks");
+        let p0 = &parsed[0];
+        let same = (0..l).all(|i| p0.c[i] ^ p0.d[i] == mm[i] ^ rr[i]);
+        if same {
+          rec.violation(
+            "adss-fields-share-keystream",
+            "in an encoded share C ^ D equals message ^ coins: both fields are encrypted under the same keystream".into(),
+            json!({"case": idx, "share": hex_short(&enc[0])}),
+          );
+        }
+      }
     }
   }
   if idx < 1 {
